@@ -17,6 +17,10 @@ writtenCaches (`Variant.useOwn = true`, the fix of the stale-entry defect); `@Wi
 scrapped.set obj.Unlock` before `written.put` of the new-cache branch = a replaced entry is scrapped
 and unlocked (`Variant.dropOld = true`, the fix of the forgotten lock).
 -/
+/- Conditions are printed in the normal form of devtools/astnorm/norm.go: function-local identifiers appear under
+canonical names `v<k>` (k = rank of the declaration inside the function: in `With`, v1 = the receiver `t`, v3 = `readOnly`,
+v7 = the entry found in the manager's map, v9 = the cache handed to the callback), so that renaming a local does not
+break the pin. -/
 namespace Sema.C11.Skeleton
 
 def expectedRelease : List String := [
@@ -24,40 +28,39 @@ def expectedRelease : List String := [
   "@Release.mgrUnlock"]
 
 def expectedPrune : List String := [
-  "@Prune.enter", "maxSize", "if(m.maxSize==-1){", "return", "}", "@Prune.mgrLock", "mgr.Lock",
-  "defer:mgr.Unlock", "defer:@Prune.mgrUnlock", "@Prune.body", "maxSize", "if(m.maxSize==0){",
-  "map.clear", "return", "}", "map.range", "for{", "}", "maxSize", "if(totalSize<=m.maxSize){",
-  "return", "}", "for{", "maxSize", "if(totalSize<=m.maxSize){", "}", "map.delete", "}"]
+  "@Prune.enter", "maxSize", "if(v1.maxSize==-1){", "return", "}", "@Prune.mgrLock", "mgr.Lock",
+  "defer:mgr.Unlock", "defer:@Prune.mgrUnlock", "@Prune.body", "maxSize", "if(v1.maxSize==0){",
+  "map.clear", "return", "}", "map.range", "for{", "}", "maxSize", "if(v4<=v1.maxSize){", "return",
+  "}", "for{", "maxSize", "if(v4<=v1.maxSize){", "}", "map.delete", "}"]
 
 def expectedWith : List String := [
-  "failed.load", "if(t.failed.Load()){", "return", "}", "if(!readOnly){", "@With.xPreTxLock",
-  "tx.Lock", "}", "@With.mgrLock", "mgr.Lock", "@With.lookup", "map.get", "if(ok){",
-  "@With.exMgrUnlock", "mgr.Unlock", "use.existing", "if(readOnly){", "@With.rTxLock", "tx.Lock",
-  "@With.rCheckWritten", "written.get", "@With.rTxUnlock", "tx.Unlock", "if(ok){", "use.own",
-  "}else{", "@With.rTryRLock", "obj.TryRLock", "if(existingCache.mu.TryRLock()){",
-  "defer:obj.RUnlock", "defer:@With.dRUnlock", "}else{", "@With.rColdCreate", "createFn",
-  "if(err!=nil){", "failed.store", "return", "}", "newElem", "use.fresh", "}", "}", "}else{",
-  "@With.xCheckWritten", "written.get", "if(ok){", "use.own", "}else{", "@With.xObjLock",
-  "obj.Lock", "@With.xRegister", "written.put", "}", "@With.xTxUnlock", "tx.Unlock", "}",
-  "@With.chkScrapped", "scrapped.get", "if(cacheToUse.scrapped){", "@With.sCreate", "createFn",
-  "if(err!=nil){", "failed.store", "return", "}", "newElem", "use.fresh", "}", "use==existing",
-  "if(cacheToUse==existingCache){", "defer:prune", "}", "@With.callF", "callF", "if(err!=nil){",
-  "@With.fScrap", "failed.store", "scrapped.set", "@With.fMgrLock", "mgr.Lock", "@With.fDelete",
-  "map.delete", "@With.fMgrUnlock", "mgr.Unlock", "return", "}", "return", "}", "@With.nCreate",
-  "createFn", "if(err!=nil){", "failed.store", "@With.nFailMgrUnlock", "mgr.Unlock",
-  "if(!readOnly){", "@With.nFailTxUnlock", "tx.Unlock", "}", "return", "}", "newElem",
-  "@With.nStore", "maxSize", "if(t.manager.maxSize!=0){", "map.put", "defer:prune", "}",
-  "if(readOnly){", "@With.nRLock", "obj.RLock", "defer:obj.RUnlock", "defer:@With.dRUnlock",
-  "}else{", "@With.nObjLock", "obj.Lock", "written.get", "if(ok){", "@With.nDropOld",
-  "scrapped.set", "obj.Unlock", "}", "@With.nRegister", "written.put", "@With.nTxUnlock",
-  "tx.Unlock", "}", "@With.nMgrUnlock", "mgr.Unlock", "@With.callF", "callF", "if(err!=nil){",
-  "@With.fScrap", "failed.store", "scrapped.set", "@With.fMgrLock", "mgr.Lock", "@With.fDelete",
-  "map.delete", "@With.fMgrUnlock", "mgr.Unlock", "return", "}", "return"]
+  "failed.load", "if(v1.failed.Load()){", "return", "}", "if(!v3){", "@With.xPreTxLock", "tx.Lock",
+  "}", "@With.mgrLock", "mgr.Lock", "@With.lookup", "map.get", "if(v8){", "@With.exMgrUnlock",
+  "mgr.Unlock", "use.existing", "if(v3){", "@With.rTxLock", "tx.Lock", "@With.rCheckWritten",
+  "written.get", "@With.rTxUnlock", "tx.Unlock", "if(v11){", "use.own", "}else{",
+  "@With.rTryRLock", "obj.TryRLock", "if(v7.mu.TryRLock()){", "defer:obj.RUnlock",
+  "defer:@With.dRUnlock", "}else{", "@With.rColdCreate", "createFn", "if(v13!=nil){",
+  "failed.store", "return", "}", "newElem", "use.fresh", "}", "}", "}else{", "@With.xCheckWritten",
+  "written.get", "if(v15){", "use.own", "}else{", "@With.xObjLock", "obj.Lock", "@With.xRegister",
+  "written.put", "}", "@With.xTxUnlock", "tx.Unlock", "}", "@With.chkScrapped", "scrapped.get",
+  "if(v9.scrapped){", "@With.sCreate", "createFn", "if(v17!=nil){", "failed.store", "return", "}",
+  "newElem", "use.fresh", "}", "use==existing", "if(v9==v7){", "defer:prune", "}", "@With.callF",
+  "callF", "if(v18!=nil){", "@With.fScrap", "failed.store", "scrapped.set", "@With.fMgrLock",
+  "mgr.Lock", "@With.fDelete", "map.delete", "@With.fMgrUnlock", "mgr.Unlock", "return", "}",
+  "return", "}", "@With.nCreate", "createFn", "if(v20!=nil){", "failed.store",
+  "@With.nFailMgrUnlock", "mgr.Unlock", "if(!v3){", "@With.nFailTxUnlock", "tx.Unlock", "}",
+  "return", "}", "newElem", "@With.nStore", "maxSize", "if(v1.manager.maxSize!=0){", "map.put",
+  "defer:prune", "}", "if(v3){", "@With.nRLock", "obj.RLock", "defer:obj.RUnlock",
+  "defer:@With.dRUnlock", "}else{", "@With.nObjLock", "obj.Lock", "written.get", "if(v23){",
+  "@With.nDropOld", "scrapped.set", "obj.Unlock", "}", "@With.nRegister", "written.put",
+  "@With.nTxUnlock", "tx.Unlock", "}", "@With.nMgrUnlock", "mgr.Unlock", "@With.callF", "callF",
+  "if(v24!=nil){", "@With.fScrap", "failed.store", "scrapped.set", "@With.fMgrLock", "mgr.Lock",
+  "@With.fDelete", "map.delete", "@With.fMgrUnlock", "mgr.Unlock", "return", "}", "return"]
 
 def expectedCommit : List String := [
   "@Commit.txLock", "tx.Lock", "defer:tx.Unlock", "defer:@Commit.txUnlock", "@Commit.checkEmpty",
-  "if(len(t.writtenCaches)==0){", "return", "}", "@Commit.mgrLock", "mgr.Lock", "defer:mgr.Unlock",
-  "defer:@Commit.mgrUnlock", "@Commit.loop", "failed.load", "written.range", "for{",
-  "@Commit.entry", "if(failed){", "scrapped.set", "map.delete", "}", "obj.Unlock", "}"]
+  "if(len(v1.writtenCaches)==0){", "return", "}", "@Commit.mgrLock", "mgr.Lock",
+  "defer:mgr.Unlock", "defer:@Commit.mgrUnlock", "@Commit.loop", "failed.load", "written.range",
+  "for{", "@Commit.entry", "if(v3){", "scrapped.set", "map.delete", "}", "obj.Unlock", "}"]
 
 end Sema.C11.Skeleton
